@@ -346,9 +346,16 @@ func prepareCorrectionOptions(o *CorrectionOptions, opts ...schema.Option) error
 		row(o)
 	}
 
-	// Copy over the stamps from the previous header
-	if o.Head != nil && len(o.Head.Stamps) > 0 {
-		o.Stamps = append(o.Stamps, o.Head.Stamps...)
+	// Copy over the stamps from the previous header. Copies are used so that
+	// the source header is never modified, for example when the raw options
+	// data below is unmarshalled into the existing stamp entries.
+	if o.Head != nil {
+		for _, s := range o.Head.Stamps {
+			if s != nil {
+				cs := *s
+				o.Stamps = append(o.Stamps, &cs)
+			}
+		}
 	}
 
 	// If we have a raw json object, this will override any of the other options
